@@ -1,8 +1,136 @@
-(* C17 - Animation-set file round trip (work in progress: first computed facts). *)
+(* C17 - Animation-set file round trip.
+   Model: Model/ASet.v - ASetFile::from_archive and ASetFile::serialize of src/aset.rs transcribed call by call
+   with the stream operations of Model/BinStreams.v (reader: main flags -> group flags -> strings; writer: flag
+   compilation, space allocation, emission).  An ASetFile value [v]: as_meta (optional string), as_table (the
+   clip-name table) and as_sets; a set is a vector whose entry 0 is the optional label and whose entries 1..256 are
+   the optional slot names.  Strings are Shift-JIS ENCODED byte lists (assumption A-codec).
+   wf_aset v = 257 table entries, every set has 257 entries (exactly the values the reader can return).
+   Proof structure (Proofs/RecsCells.v, ASetBits/Write/Read/RoundTrip.v): the writer builds EXACTLY the archive of
+   the cell list [file_cells v] = header ++ 257 string cells ++ per set: main-flags word, per NON-EMPTY group its
+   flags word and one string cell per PRESENT slot; labels: AnimClipNameTable at 12, every set label on the first
+   byte of its record.  The reader, run on ANY archive showing that layout and those labels, returns v.
+   Two layers: (1) archive API level; (2) byte level, first relative to the bin-archive round trip as an explicit
+   premise (C17_round_trip), then with the premise discharged by C01 through Proofs/RecsBinBridge.v
+   (C17_round_trip_final: no premise, no axiom).  Byte level needs in addition: NUL-free strings (the empty
+   string is allowed), no set labelled AnimClipNameTable (the table lookup would depend on the hash order:
+   Example C17_table_label_reserved), image below 2^32.
+   Tied to src/aset.rs by `./check C17`. *)
 From Coq Require Import List NArith ZArith Bool.
-From Mila Require Import Lib.Bytes Lib.Machine Model.BinArchive Model.BinStreams Model.BinFormat Model.ASet.
+From Mila Require Import Lib.Bytes Lib.Machine Model.BinArchive Model.BinStreams Model.BinFormat Model.ASet
+  Proofs.RecsCells Proofs.RecsBytes Proofs.ASetBits Proofs.ASetWrite Proofs.ASetRead Proofs.ASetRoundTrip.
 Import ListNotations.
 Local Open Scope N_scope.
 
-Theorem C17_table_label : length ACNT = 17%nat.
-Proof. reflexivity. Qed.
+(* ---- flag words: bit j of the compiled word is the j-th presence bit; the reader's test reads that bit ---- *)
+Theorem C17_flag_bits : forall bs j, N.testbit (compile_flags bs) j = nth (N.to_nat j) bs false.
+Proof. exact compile_flags_testbit. Qed.
+Theorem C17_reader_bit_test : forall x i, (N.land x (N.shiftl 1 i) =? 0) = negb (N.testbit x i).
+Proof. exact land_bit_test. Qed.
+Theorem C17_group_flag_bit : forall s g b, (b < 32)%nat -> N.testbit (gflag s g) (N.of_nat b) = slot_present s (g * 32 + b + 1).
+Proof. exact gflag_testbit. Qed.
+Theorem C17_main_flag_bit : forall s g, (g < 8)%nat -> N.testbit (main_flags s) (N.of_nat g) = group_nonempty s g.
+Proof. exact main_flags_testbit. Qed.
+
+(* ---- (1) archive level: meta, the 257 table entries, every set: label and present/absent state and name of
+        each of its 256 slots ---- *)
+Theorem C17_round_trip_archive : forall v, wf_aset v -> exists a, build v = Ok a /\ from_archive a = Ok v /\ a = built v.
+Proof. exact round_trip_archive. Qed.
+
+(* the writer builds exactly the archive of the cell list and the label map *)
+Theorem C17_writer_builds_cells : forall v,
+  length (as_table v) = 257%nat -> Forall (fun s : oset => s <> []) (as_sets v) -> build v = Ok (built v).
+Proof. exact build_spec. Qed.
+(* one set record: its cells are appended, its label (if any) is attached to the first byte of the record *)
+Theorem C17_write_set : forall lbl rest A,
+  keys_below (a_text A) (size A) -> keys_below (a_labels A) (size A) -> a_endian A = LE ->
+  let s := lbl :: rest in
+  write_set s A (size A)
+  = (Ok tt, set_labels (append_cells A (set_cells s)) (a_labels A ++ lbl_entry (size A) lbl), size A + cells_size (set_cells s)).
+Proof. exact write_set_spec. Qed.
+
+(* the reader depends only on observations: any archive showing the layout and the labels reads as v ... *)
+Theorem C17_reader_inverts_layout : forall v a,
+  wf_aset v -> a_endian a = LE -> layout a 0 (file_cells v) -> size a = cells_size (file_cells v) ->
+  find_label_address a ACNT = Some 12 ->
+  (forall x, SETS_AT <= x -> am_get x (a_labels a) = am_get x (sets_labels SETS_AT (as_sets v))) ->
+  from_archive a = Ok v.
+Proof. exact from_archive_layout. Qed.
+(* ... in particular every archive observationally equal to the built one, whatever the order of its label map *)
+Theorem C17_reader_observational : forall v a',
+  wf_aset v -> no_acnt v -> obs_equal (built v) a' -> from_archive a' = Ok v.
+Proof. exact from_archive_obs_equal. Qed.
+
+Theorem C17_reserialize_identical_archive : forall v a v',
+  wf_aset v -> build v = Ok a -> from_archive a = Ok v' -> v' = v /\ build v' = Ok a.
+Proof. exact reserialize_identical_archive. Qed.
+
+(* ---- (2) space: an absent slot costs nothing, an entirely absent group of 32 is omitted ---- *)
+(* one set: 4 bytes of main flags + 4 per non-empty group + 4 per present slot; this is what the writer allocates *)
+Theorem C17_space_set : forall lbl rest A,
+  keys_below (a_text A) (size A) -> keys_below (a_labels A) (size A) -> a_endian A = LE ->
+  let s := lbl :: rest in
+  exists A', write_set s A (size A) = (Ok tt, A', size A + set_space s) /\ size A' = size A + set_space s /\
+             (flags_to_write (compiled_flags s) + strings_to_write s + 1) * 4 = set_space s.
+Proof. exact space_set. Qed.
+Theorem C17_set_space_formula : forall s, set_space s = 4 * (1 + nonempty_groups s + present_slots s).
+Proof. exact set_space_eq. Qed.
+Theorem C17_present_slots : forall s, present_slots s = cnt (slot_present s) (seq 1 256).
+Proof. exact present_slots_eq. Qed.
+Theorem C17_nonempty_groups : forall s, nonempty_groups s = cnt (group_nonempty s) (seq 0 GROUPS).
+Proof. exact nonempty_groups_eq. Qed.
+(* the data region of the file *)
+Theorem C17_space_file : forall v, wf_aset v ->
+  exists a, build v = Ok a /\ size a = 12 + 4 * 257 + sets_space (as_sets v).
+Proof. exact space_file. Qed.
+(* ... which is the data-size field (offset 4) of the file image *)
+Theorem C17_space_file_bytes : forall m v f, wf_aset v -> 12 + 4 * 257 + sets_space (as_sets v) < 2 ^ 32 ->
+  serialize m v = Ok f -> u32_at LE f 4 = Some (12 + 4 * 257 + sets_space (as_sets v)).
+Proof. exact space_file_bytes. Qed.
+Theorem C17_space_empty_set : forall s, present_slots s = 0 -> set_space s = 4.
+Proof. exact space_empty_set. Qed.
+Theorem C17_absent_group_omitted : forall s g, group_nonempty s g = false -> group_cells s g = [].
+Proof. exact absent_group_omitted. Qed.
+Theorem C17_present_group_cells : forall s g, group_nonempty s g = true ->
+  cells_size (group_cells s g) = 4 + 4 * cnt (slot_present s) (group_slots g).
+Proof. exact present_group_cells. Qed.
+
+(* ---- (3) byte level; premise = bin-archive round trip on the archives this writer builds ---- *)
+Theorem C17_round_trip : forall m,
+  (forall a, ba_wf a -> image_bound a + 3 < 2 ^ 32 ->
+     exists f a', BinFormat.serialize m a = Ok f /\ BinFormat.from_bytes LE f = Ok a' /\ obs_equal a a') ->
+  forall v, wf_aset_bytes v ->
+  exists f, serialize m v = Ok f /\ parse f = Ok v /\ (forall v', parse f = Ok v' -> serialize m v' = Ok f).
+Proof. exact round_trip_bytes. Qed.
+(* the premise is used on a well-formed archive: what the writer builds satisfies ba_wf and the size bound *)
+Theorem C17_built_archive_wf : forall v, wf_aset_bytes v -> ba_wf (built v) /\ image_bound (built v) + 3 < 2 ^ 32.
+Proof. exact (fun v W => conj (built_wf v W) (built_bound v W)). Qed.
+(* ... and with that premise discharged by the bin-archive round trip C01: in both arithmetic modes serialize
+   succeeds, parsing the bytes returns the same value, and re-serializing whatever is re-read gives the same bytes *)
+Theorem C17_round_trip_final : forall m v, wf_aset_bytes v ->
+  exists f, serialize m v = Ok f /\ parse f = Ok v /\ (forall v', parse f = Ok v' -> serialize m v' = Ok f).
+Proof. exact round_trip_bytes_final. Qed.
+
+(* ---- non-vacuity ---- *)
+Fixpoint put (n : nat) (x : bytes) (l : oset) : oset :=
+  match l with [] => [] | y :: r => match n with O => Some x :: r | S n' => y :: put n' x r end end.
+(* labelled set: slots 1, 32 (last of group 0), 33 (first of group 1, the empty name), 256 (last slot); groups 2..6 empty *)
+Definition ex_set1 : oset := put 256 [122] (put 33 [] (put 32 [98; 99] (put 1 [97] (Some [76; 49] :: repeat None 256)))).
+(* unlabelled, entirely empty set *)
+Definition ex_set2 : oset := repeat None 257.
+Definition ex_aset : aset :=
+  {| as_meta := Some [109]; as_table := put 256 [] (put 0 [99; 48] (repeat None 257)); as_sets := [ex_set1; ex_set2] |}.
+
+Example C17_example_wf : wf_aset_bytes ex_aset.
+Proof. apply wf_aset_bytesb_sound. vm_compute. reflexivity. Qed.
+(* on this file the model's own byte-level functions round-trip (no premise needed for a concrete file) *)
+Example C17_example_bytes : exists f, serialize Checked ex_aset = Ok f /\ parse f = Ok ex_aset.
+Proof. eexists. split; [vm_compute; reflexivity | vm_compute; reflexivity]. Qed.
+(* its data region: 12 + 1028 + (4 + 3 flag words + 4 names) * 4 + 4 *)
+Example C17_example_space : exists a, build ex_aset = Ok a /\ size a = 12 + 1028 + 32 + 4.
+Proof. eexists. split; [vm_compute; reflexivity | vm_compute; reflexivity]. Qed.
+(* the label AnimClipNameTable is reserved: with it on a set the lookup finds the table at 12 only because the
+   model's map keeps insertion order; from_bytes/hash order may return the set's address instead *)
+Example C17_table_label_reserved :
+  let v := {| as_meta := None; as_table := repeat None 257; as_sets := [Some ACNT :: repeat None 256] |} in
+  exists a, build v = Ok a /\ a_labels a = [(12, [ACNT]); (1040, [ACNT])].
+Proof. intros; eexists. split; [vm_compute; reflexivity | vm_compute; reflexivity]. Qed.
